@@ -140,9 +140,39 @@ def gen_problem(prop):
 
 # ------------------------------------------------------------------------------------------------
 # step 2: proof obligations
+def tie_obligations(prop):
+    """Props/<Cxx>Tie.lean (written by bin/mkties.py): theorems that every function of the files the property is
+    anchored in still has the full shape it had when the model was validated against it (Ties.lean is regenerated
+    from $VERIF_REPO on every run)"""
+    path = os.path.join(LEAN, "OnetVerif", "Props", prop + "Tie.lean")
+    if not os.path.exists(path):
+        return []
+    return ["%s.%s" % (prop, n) for n in re.findall(r"^theorem\s+(\w+)", open(path).read(), re.M)]
+
+
+def tie_diff(prop):
+    """which functions differ from the expectation (for the replay file)"""
+    try:
+        exp = json.load(open(os.path.join(VERIF, "meta", "ties_expected.json"))).get(prop, {})
+        now = json.load(open(os.path.join(BUILD, "digests.json")))
+    except Exception:
+        return "expected/actual digests not readable"
+    out = []
+    for f, e in sorted(exp.items()):
+        n = now.get(f, {})
+        ch = sorted(k for k in e if k in n and n[k] != e[k])
+        gone = sorted(k for k in e if k not in n)
+        new = sorted(k for k in n if k not in e)
+        if ch or gone or new:
+            out.append("%s: %s" % (f, "; ".join(x for x in ("changed: " + ", ".join(ch) if ch else "", "removed: " + ", ".join(gone) if gone else "",
+                                                            "added: " + ", ".join(new) if new else "") if x)))
+    return " | ".join(out) or "no difference found in the digests (stale Props/%sTie.lean? run bin/mkties.py)" % prop
+
+
 def proof_obligations(prop, tier, log):
     """returns (obligations:list[str], discharged:list[str], problems:list[str], checker_cmd)"""
     names = load_meta(prop).get("obligations", [])
+    ties = tie_obligations(prop)
     problems = []
     pmods = props_modules(prop)
     checker = "cd lean && lake build %s onetmodel && lake env lean <audit: #print axioms of every obligation>" % " ".join(pmods)
@@ -155,7 +185,7 @@ def proof_obligations(prop, tier, log):
     if rc != 0:
         # find which theorem failed, if the error names a line
         problems.append("lake build failed: " + out[-1500:])
-        return names, [], problems, checker
+        return names + ties, [], problems, checker
     # forbidden tokens in every module the property depends on
     for m in lean_module_closure(prop):
         path = os.path.join(LEAN, m.replace(".", "/") + ".lean")
@@ -166,17 +196,29 @@ def proof_obligations(prop, tier, log):
     # the theorems must be declared in Props/<prop>.lean (or Props/<prop>Gen.lean) itself
     psrc = "\n".join(strip_comments(open(os.path.join(LEAN, m.replace(".", "/") + ".lean")).read()) for m in pmods)
     os.makedirs(BUILD, exist_ok=True)
+    tie_ok = False
+    if ties:
+        tmod = "OnetVerif.Props.%sTie" % prop
+        rc, out = sh(["lake", "build", tmod], cwd=LEAN)
+        log.append(out[-1500:])
+        tie_ok = rc == 0
+        if not tie_ok:
+            problems.append("source tie broken (Props/%sTie.lean no longer checks against the regenerated Ties.lean): %s" % (prop, tie_diff(prop)))
+        else:
+            pmods = pmods + [tmod]
+            psrc += "\n" + open(os.path.join(LEAN, "OnetVerif", "Props", prop + "Tie.lean")).read()
+    all_names = names + (ties if tie_ok else [])
     audit = os.path.join(BUILD, "Audit_%s.lean" % prop)
     with open(audit, "w") as f:
         for m in pmods:
             f.write("import %s\n" % m)
-        for n in names:
+        for n in all_names:
             f.write("#print axioms %s\n" % n)
     rc, out = sh(["lake", "env", "lean", audit], cwd=LEAN)
     log.append(out[-6000:])
     discharged = []
     flat = re.sub(r"\s+", " ", out)
-    for n in names:
+    for n in all_names:
         short = n.split(".")[-1]
         if not re.search(r"\b(theorem|lemma)\s+(%s|%s)\b" % (re.escape(short), re.escape(n)), psrc):
             problems.append("theorem %s is not stated in Props/%s.lean or Props/%sGen.lean" % (n, prop, prop))
@@ -200,7 +242,7 @@ def proof_obligations(prop, tier, log):
             if rc != 0:
                 problems.append("leanchecker rejected %s: %s" % (m, out[-800:]))
                 discharged = []
-    return names, discharged, problems, checker
+    return names + ties, discharged, problems, checker
 
 
 # ------------------------------------------------------------------------------------------------
